@@ -227,9 +227,26 @@ package stdlib
 //@   loop 1 invariant sb_content(addrof(sb)) == for_to((*args)[2], context, app((*args)[0], context), idx, str_of_rune(0), "")
 //@   loop 1 invariant forall j in [0, idx) :: truthy(app3((*args)[1], context, for_x((*args)[2], context, app((*args)[0], context), j), itoa(j)))
 
-// field selection: the current word starts at or before the scan position
+// field selection: the current word starts at or before the scan position; fields are counted
+// from 0, so a negative index selects nothing
 //@ func selectField
-//@   loop 1 invariant 0 <= wordStart && wordStart <= rangepos() && rangepos() <= len(s)
+//@   pure
+//@   ensures [negative] idx < 0 ==> result == ""
+//@   loop 1 invariant 0 <= wordStart && wordStart <= rangepos() && rangepos() <= len(s) && 0 <= currIdx && currIdx <= rangepos()
+//@ func kfSelect$1
+//@   ensures [bad-type] !int_ok(app((*args)[1], context)) ==> result == "<BAD-TYPE>"
+//@   assert at "return selectField(" : $arg0 == app((*args)[0], context) && $arg1 == atoi(app((*args)[1], context))
+// {@len arr}: 0 for the empty string, else one more than the number of separators
+//@ smt
+//@ (declare-fun str_count (Str Str) Int)
+//@ end
+//@ extern strings.Count
+//@   params (s, substr)
+//@   pure
+//@   ensures result == str_count(s, substr) && result >= 0 && result <= len(s) + 1
+//@ func kfArrayLen$1
+//@   ensures [empty] app((*args)[0], context) == "" ==> result == "0"
+//@   ensures [count] app((*args)[0], context) != "" ==> result == itoa(str_count(app((*args)[0], context), "\x00") + 1)
 
 // the time attribute table is written by package initialisation only; every entry is a function
 // (checked over the composite literal on every run: table obligation "time attribute table")
@@ -319,8 +336,34 @@ package stdlib
 //@ func init$yearweek at "year, week := t.ISOWeek()"
 //@   ensures result == itoa(iso_year(t)) + "-" + itoa(iso_week(t))
 
+// duration <-> whole seconds: dur_ok / dur_val name what time.ParseDuration accepts and its value in
+// nanoseconds, dur_str what Duration.String prints (package time, assumed). {duration d} is the
+// value truncated to whole seconds, {durationformat n} prints exactly n seconds.
+//@ smt
+//@ (declare-fun dur_ok (Str) Bool)
+//@ (declare-fun dur_val (Str) Int)
+//@ (declare-fun dur_str (Int) Str)
+//@ end
+//@ extern time.ParseDuration
+//@   params (s)
+//@   results (d, err)
+//@   pure
+//@   ensures (err == nil) == dur_ok(s)
+//@   ensures err == nil ==> d == dur_val(s) && -9223372036854775808 <= d && d <= 9223372036854775807
+//@ extern time.(Duration).Seconds
+//@   params (d)
+//@   pure
+//@   ensures result == real(d) / 1000000000.0
+//@ extern time.(Duration).String
+//@   params (d)
+//@   pure
+//@   ensures result == dur_str(d)
+//@ func kfDuration$1
+//@   ensures [unparsable] !dur_ok(app((*args)[0], context)) ==> result == "<PARSE-ERROR>"
+//@   ensures [whole-seconds] dur_ok(app((*args)[0], context)) ==> result == itoa(f2i(real(dur_val(app((*args)[0], context))) / 1000000000.0))
 // durationformat reads its argument as a plain base-10 integer number of seconds
 //@ func kfDurationFormat$1
+//@   ensures [seconds] int_ok(app((*args)[0], context)) && -9223372036 <= atoi(app((*args)[0], context)) && atoi(app((*args)[0], context)) <= 9223372036 ==> result == dur_str(atoi(app((*args)[0], context)) * 1000000000)
 //@   ensures !int_ok(app((*args)[0], context)) ==> result == "<BAD-TYPE>"
 //@   assert at "return ErrorNum" : !int_ok(app((*args)[0], context))
 //@   assert at "return (time.Duration(secs) * time.Second).String()" : secs == atoi(app((*args)[0], context))
